@@ -5,6 +5,7 @@ import json
 import os
 import shutil
 import tempfile
+import threading
 import warnings
 from dataclasses import asdict, dataclass
 from pathlib import Path
@@ -162,7 +163,7 @@ class RunInfo:
             data[key] = {_maybe_tuple_to_str(k): v for k, v in data[key].items()}
         data["run_folder"] = str(data["run_folder"])
         data["defaults_path"] = str(self.defaults_path)
-        tmp_path = path.with_name(f"{path.name}.tmp")
+        tmp_path = path.with_name(f"{path.name}.{os.getpid()}-{threading.get_ident()}.tmp")
         with tmp_path.open("w") as f:
             json.dump(data, f, indent=4)
         os.replace(tmp_path, path)  # noqa: PTH105
